@@ -1738,6 +1738,12 @@ func (c *PermanodeConstraint) blobMatches(ctx context.Context, s *search, br blo
 			s.ss = corpus.AppendPermanodeAttrValues(
 				s.ss[:0], br, c.Attr, c.At, s.h.owner.KeyID())
 			vals = s.ss
+			if c.ValueInSet != nil {
+				// Matching the values against the sub-query may
+				// evaluate other PermanodeConstraints, which
+				// reuse (and overwrite) the s.ss scratch buffer.
+				vals = append([]string(nil), vals...)
+			}
 		}
 		ok, err := c.permanodeMatchesAttrVals(ctx, s, vals)
 		if !ok || err != nil {
